@@ -538,6 +538,13 @@ pub fn replay(section: &str, case: &Json) -> Option<CheckResult> {
     if section.starts_with("fuzz-") {
         return super::fuzz_replay("C13", section, case);
     }
+    if let (true, Some(b)) = (section == "trailing-length-sweep", case.get("enum_block").and_then(|b| b.as_u64())) {
+        let rep = trailing_block(b);
+        return Some(match rep.violation {
+            Some((_, v)) => Err(v),
+            None => Ok(Pass::new(true).class("trailing-length-sweep")),
+        });
+    }
     if section == "arbitrary-payloads"
         || section == "fuzz-args"
         || section == "trailing-length-sweep"
